@@ -29,11 +29,11 @@ verus! {
 //@contract-file fn/entry_decode_from.c
 //@end
 
-//@extract src/journal/reader.rs :: JournalReader :: truncate_file world props=C03+C02
+//@extract src/journal/reader.rs :: JournalReader :: truncate_file world props=C03+C02+C09
 //@contract-file fn/jreader_truncate_file.c
 //@end
 
-//@extract src/journal/reader.rs :: JournalReader :: maybe_truncate_file_to_last_valid_pos world props=C03+C02
+//@extract src/journal/reader.rs :: JournalReader :: maybe_truncate_file_to_last_valid_pos world props=C03+C02+C09
 //@contract-file fn/jreader_maybe_truncate.c
 //@end
 
@@ -46,15 +46,15 @@ verus! {
 //@extract-type src/journal/batch_reader.rs :: JournalBatchReader
 //@include spec/batch_reader_spec.rs
 
-//@extract src/journal/batch_reader.rs :: JournalBatchReader :: truncate_to world props=C03+C02
+//@extract src/journal/batch_reader.rs :: JournalBatchReader :: truncate_to world props=C03+C02+C09
 //@contract-file fn/breader_truncate_to.c
 //@end
 
-//@extract src/journal/batch_reader.rs :: JournalBatchReader :: on_close world props=C03+C02
+//@extract src/journal/batch_reader.rs :: JournalBatchReader :: on_close world props=C03+C02+C09
 //@contract-file fn/breader_on_close.c
 //@end
 
-//@extract src/journal/batch_reader.rs :: Iterator for JournalBatchReader :: next world inherent props=C03+C02+C15
+//@extract src/journal/batch_reader.rs :: Iterator for JournalBatchReader :: next world inherent props=C03+C02+C15+C09
 //@contract-file fn/breader_next.c
 //@loop 0
             invariant
